@@ -19,7 +19,7 @@ Theorem negotiated_is_min :
     (c_expected_asn c = 0 \/ c_expected_asn c = asn) ->
     let c' := fst (on_open c asn id hold caps) in
     let outs := snd (on_open c asn id hold caps) in
-    let h := hold_in_force (c_local_hold c) hold in
+    let h := hold_in_force (open_hold (c_local_hold c)) hold in
     c_state c' = OpenConfirm
     /\ c_neg_hold c' = h
     /\ (h <> 0 -> c_ka c' = keepalive_of h /\ In (SetKa (keepalive_of h)) outs /\ In (SetHold h) outs).
@@ -30,7 +30,7 @@ Check negotiated_is_min :
     (c_expected_asn c = 0 \/ c_expected_asn c = asn) ->
     let c' := fst (on_open c asn id hold caps) in
     let outs := snd (on_open c asn id hold caps) in
-    let h := hold_in_force (c_local_hold c) hold in
+    let h := hold_in_force (open_hold (c_local_hold c)) hold in
     c_state c' = OpenConfirm
     /\ c_neg_hold c' = h
     /\ (h <> 0 -> c_ka c' = keepalive_of h /\ In (SetKa (keepalive_of h)) outs /\ In (SetHold h) outs).
@@ -188,3 +188,18 @@ Check as_loop_drop_refuted :
     ~ hold_follows_rx (fst (task pre_fix p r t0 b evs)) (snd (task pre_fix p r t0 b evs))
     /\ existsb timer_down (snd (task pre_fix p r t0 b (evs ++ [ETick 25; ESelect]))) = true.
 Print Assumptions as_loop_drop_refuted.
+
+(* (10) Record of finding C08-3 (repaired in the tree): a configured hold time of
+   1 (or 2, or 65536) is advertised as 0; negotiating with the configured
+   number instead of the advertised one puts hold time 1 (resp. the peer's
+   value) in force where the two advertised values give 0. *)
+Theorem raw_local_hold_refuted :
+  exists (local remote : N),
+    open_hold local = 0 /\ hold_in_force (open_hold local) remote = 0 /\ N.min local remote = 1
+    /\ open_hold 65536 = 0 /\ N.min 65536 remote = remote /\ remote <> 0.
+Proof. exact C08_raw_local_hold_refuted. Qed.
+Check raw_local_hold_refuted :
+  exists (local remote : N),
+    open_hold local = 0 /\ hold_in_force (open_hold local) remote = 0 /\ N.min local remote = 1
+    /\ open_hold 65536 = 0 /\ N.min 65536 remote = remote /\ remote <> 0.
+Print Assumptions raw_local_hold_refuted.
